@@ -262,16 +262,16 @@ func stressProfiles(rng *rand.Rand, i int) stressCfg {
 	}
 }
 
-// TestVerifStress records VERIF_SEGMENTS segments (VERIF_PAR at a time) into VERIF_OUT.
+// TestVerifStress records C13_SEGMENTS segments (C13_PAR at a time) into C13_OUT.
 func TestVerifStress(t *testing.T) {
-	out := os.Getenv("VERIF_OUT")
+	out := os.Getenv("C13_OUT")
 	if out == "" {
 		t.Skip("driver only")
 	}
-	seed := int64(vEnvInt("VERIF_SEED", 1))
-	nseg := vEnvInt("VERIF_SEGMENTS", 12)
-	par := vEnvInt("VERIF_PAR", 6)
-	only := os.Getenv("VERIF_PROFILE")
+	seed := int64(vEnvInt("C13_SEED", 1))
+	nseg := vEnvInt("C13_SEGMENTS", 12)
+	par := vEnvInt("C13_PAR", 6)
+	only := os.Getenv("C13_PROFILE")
 	VerifHook = vHookFn
 	w := vCreate(out)
 	defer w.close()
